@@ -451,8 +451,10 @@ func (c *client) executeReadLoop(cborReader *cbor.Decoder) {
 	}()
 	// Loop and get all messages
 	// The message is generic, so we must find the type and decode the full message next.
-	var runtimeMessage DecodedRuntimeMessage
 	for {
+		// A fresh value for every frame: decoding a frame that lacks a field (for example an empty map) would
+		// otherwise leave the previous frame's value in it, and the previous message would be handled again.
+		var runtimeMessage DecodedRuntimeMessage
 		if err := cborReader.Decode(&runtimeMessage); err != nil {
 			c.logger.Errorf(
 				"ATP client for steps '%s' failed to read or decode runtime message: %v",
